@@ -44,7 +44,9 @@ def stream_credit_job(ctx):
         args += ["--max-per-file", "40"]
     # (+ --ticks: one tunnel with an idle timeout of 12 / 30 ms, one direction streaming, the silent one expiring: Pipe.tla's TimedOut
     #  dropping and restarting the pending futures of the HTTP/3 stream halves; the relayed stream must stay a correct prefix)
-    r = ctx.harness("c02h3c", args + ["--ticks"], name="c02h3c", env={"VERIF_ROOT": ROOT}, timeout=900)
+    # (+ --walk: one tunnel per client stream window of 44..84 octets: a download waiting for a few octets of credit does not
+    #  keep the upload of the same tunnel from being relayed, and arrives whole once the client reads)
+    r = ctx.harness("c02h3c", args + ["--ticks", "--walk"], name="c02h3c", env={"VERIF_ROOT": ROOT}, timeout=900)
     c = r["counters"]
     aborted = any("aborted by the watchdog" in n or "process died" in n for n in r.get("notes", []))
     if not aborted:
@@ -162,9 +164,10 @@ def response_head_under_contention_job(ctx):
         ctx.spec_must_hold(g)
         args += ["--vectors", g["out"]]
     n0 = len(ctx.violations)
-    r = ctx.harness("c02h3c", args + ["--eager"], name="c02h3c.eager", env={"VERIF_ROOT": ROOT}, timeout=600)
+    # (--walk 36..40: a client stream window that cannot take the response HEADERS frame at once is the deterministic form)
+    r = ctx.harness("c02h3c", args + ["--eager", "--walk", "--walk-from", "36", "--walk-to", "40"], name="c02h3c.eager", env={"VERIF_ROOT": ROOT}, timeout=600)
     for v in ctx.violations[n0:]:
         w = v.get("what", "")
-        if v.get("sig", "").endswith(":setup") and "not answered 200 (head None" in w and "reset=Some(271)" in w:
+        if v.get("sig", "").endswith(":setup") and "not answered 200" in w and "reset=Some(271)" in w and ("head None" in w or "heads 0" in w):
             v["sig"] = "h3:response-head:stream-blocked"
     return {"eager_scenarios": r["evaluations"]}
